@@ -33,6 +33,16 @@ def check(ctx, cfg):
     r2(ctx, cfg)
     r3(ctx, cfg)
     r4(ctx, cfg)
+    r5(ctx, cfg)
+
+
+def r5(ctx, cfg):
+    """"a successful withdrawal pays exactly the pending reward shown beforehand": what is shown is computed from the
+    delegator's STAKES entry, what is paid was credited by walking the validator's staker set - the two agree only while
+    "has a STAKES entry" and "is in the staker set" are the same thing, which is the pairing invariant C14.R1 (every
+    removal of one paired with the other, on every path), re-stated under C15's id"""
+    from rules import C14
+    C14.r1(ctx, cfg, R="C15.R5")
 
 
 def r1(ctx, cfg):
